@@ -2,6 +2,7 @@ package props
 
 import (
 	"calcsa/engines/bcai"
+	"calcsa/engines/builtins"
 	"calcsa/engines/enc"
 	"calcsa/engines/grammar"
 	"calcsa/engines/lexfsm"
@@ -19,6 +20,8 @@ func init() {
 
 	RegisterEngine(&Engine{Name: "abort", Run: abortRun})
 	engineKinds["abort"] = "inventory of every abort site (panic, log.Panic/Fatal, os.Exit, unchecked assertion, integer division) with a per-site discharging argument taken from the other engines' verdicts"
+	RegisterEngine(&Engine{Name: "builtins", Run: builtins.Run})
+	engineKinds["builtins"] = "the builtin function trees, obtained by interpreting package builtin's initialiser, compared with the documented definitions"
 	RegisterEngine(&Engine{Name: "bcai", Run: bcai.Run})
 	engineKinds["bcai"] = "abstract interpretation of the compiler: every byteCode method over opaque children answered from tabulated summaries (node type x flag context x operand slot), code segment as item list with symbolic labels; stack, tmp and jump simulation of the emitted code"
 	RegisterEngine(&Engine{Name: "enc", Run: enc.Run})
@@ -107,6 +110,7 @@ func init() {
 			{"own", "O4", 8, "recycled contexts are re-initialised and long enough"},
 			{"own", "O8", 20, "new locals are nil-initialised whatever the stack held before"},
 			{"vmshape", "V8", 60, "what a yield leaves on the stack does not depend on the dynamic context (enclosing loop or not)"},
+			{"vmshape", "V16", 1, "a recycled iterator context is never shared by two live iterators"},
 		},
 		Technique:  "abstract interpretation of the VM handlers FUNC/CALL/RET and of memory.Clone/PushFrame; provenance of captured slices",
 		Decides:    "only the storage mechanisms the property is anchored in: where captured aliases of the growing value stack originate (exactly one site, a known finding), that a function value is detached from the frame it was created on when it is returned, that recycled or forked memories cannot leak earlier state into a call (own storage, nil-initialised locals, full re-initialisation).",
@@ -223,6 +227,8 @@ func init() {
 			{"bcai", "B2", 25, "the loop variable receives exactly one value per resume, the previous body result is dropped, one result remains"},
 			{"vmshape", "V6", 50, "m == ctxp.m after every instruction"},
 			{"vmshape", "V8", 60, "CCONT/YIELD/SCONT/DCONT/RCONT follow the coroutine transfer protocol the compiler's layout assumes"},
+			{"vmshape", "V15", 1, "iterator contexts of loops at different recursion depths have different registration keys"},
+			{"vmshape", "V16", 1, "an abandoned generator frees its own nested iterators and is recycled with an empty child table (no context is handed out twice)"},
 		},
 		Technique:  "coroutine-aware stack simulation of the emitted loop layout; symbolic effect of the five context opcodes; ownership of the closure stack in memory.Clone",
 		Decides:    "fork/resume/destroy pairing and id consistency in the compiled loop, one pushed value per resume and stack neutrality of the loop layout (with the transfer semantics of the context opcodes, themselves extracted from the VM), that a yield's value survives the body, that parent and forked context own their closure stacks, context switch integrity in the VM.",
@@ -275,6 +281,7 @@ func init() {
 			{"bcai", "B3", 25, "no instruction is removed after its operands' code was emitted"},
 			{"vmshape", "V7", 6, "frame and closure stacks are pushed and popped pairwise"},
 			{"vmshape", "V8", 60, "DCONT/RCONT free every context in their range and remove the registration"},
+			{"vmshape", "V16", 1, "destroying a context frees its whole subtree"},
 		},
 		Technique:  "stack-height simulation over the control-flow graph of the emitted items (with coroutine transfer edges), inductive over the tree by child summaries",
 		Decides:    "for all programs: operand stack neutrality of every node in every context including loops (heights agree at joins and back-edges, so storage does not grow with the iteration count), pairing of frames and closures in CALL/RET, destruction of every iterator context.",
@@ -303,6 +310,7 @@ func init() {
 			{"vmshape", "V11", 2, "toa and write render through value.Type.String"},
 			{"vmshape", "V10", 30, "aton of a non-string is a type error, an unconvertible string a conversion error; wrong arity is an arity error, a non-function callee a type error"},
 			{"vmshape", "V7", 6, "argument count is checked before the frame is pushed"},
+			{"builtins", "U1", 9, "each builtin is the documented definition: fromto yields a, a+1, .. while below b; elems / indices walk 0..#x-1; read/write/aton/toa/exit take the documented arity and map to their primitive"},
 			{"valtab", "A7", 21, "rendering is total for every kind of value"},
 			{"valtab", "A8", 1, "floats are rendered with the shortest representation that reads back to the same value"},
 			{"bcai", "B1", 25, "the builtin trees compile to instructions the VM accepts (they are part of the class table)"},
@@ -319,6 +327,7 @@ func init() {
 			{"vmshape", "V1", 60, "operands are fetched from the slot the instruction names"},
 			{"bcai", "B7", 25, "debug info is keyed by the address of the CALL (the return address the stack dump looks up), with the right argument count"},
 			{"own", "O8", 20, "a forked context receives the whole top frame including the return address slot the stack dump reads"},
+			{"own", "V14", 1, "the stack dump lists calls innermost first, reading each return address and argument list from the frame the call protocol wrote"},
 			{"valtab", "A7", 21, "rendering operand values in the report cannot fail"},
 			{"vmshape", "V6", 50, "every context records the memory it runs on, so the report walks the right stacks"},
 			{"vmshape", "V8", 60, "a forked or recycled context is set up with its parent and its memory before anything can fail in it"},
